@@ -247,6 +247,27 @@ impl MetricValue for MaybeLying {
     type Unit = u::Byte;
 }
 
+/// promises Seconds, writes Milliseconds: the same kind of unit at another scale
+struct LyingScaleTime;
+impl Value for LyingScaleTime {
+    fn write(&self, writer: impl ValueWriter) {
+        writer.metric([Observation::Floating(1500.0)], Unit::Second(metrique_writer::unit::NegativeScale::Milli), [], MetricFlags::empty())
+    }
+}
+impl MetricValue for LyingScaleTime {
+    type Unit = u::Second;
+}
+/// promises Kilobytes, writes Megabytes
+struct LyingScaleBytes;
+impl Value for LyingScaleBytes {
+    fn write(&self, writer: impl ValueWriter) {
+        writer.metric([Observation::Unsigned(3)], Unit::Byte(metrique_writer::unit::PositiveScale::Mega), [], MetricFlags::empty())
+    }
+}
+impl MetricValue for LyingScaleBytes {
+    type Unit = u::Kilobyte;
+}
+
 struct LyingNone;
 impl Value for LyingNone {
     fn write(&self, writer: impl ValueWriter) {
@@ -350,12 +371,20 @@ fn misc(rng: &mut Rng, rep: &Report) {
     let l_same: WithUnit<LyingProbe, u::Second> = WithUnit::from(LyingProbe);
     let l_none: WithUnit<LyingNone, u::Megabyte> = WithUnit::from(LyingNone);
     let l_none2: WithUnit<LyingNone, u::None> = WithUnit::from(LyingNone);
+    let l_scale_t: WithUnit<LyingScaleTime, u::Microsecond> = WithUnit::from(LyingScaleTime);
+    let l_scale_t_same: WithUnit<LyingScaleTime, u::Second> = WithUnit::from(LyingScaleTime);
+    let l_scale_b: WithUnit<LyingScaleBytes, u::Gigabyte> = WithUnit::from(LyingScaleBytes);
+    let l_scale_b_bits: WithUnit<LyingScaleBytes, u::Kilobit> = WithUnit::from(LyingScaleBytes);
     for (what, v) in [
         ("unit on a string", record_value(&s)),
         ("promised Seconds, wrote Bytes, declared Milliseconds", record_value(&l)),
         ("promised Seconds, wrote Bytes, declared Seconds (identity conversion)", record_value(&l_same)),
         ("promised unitless, wrote Seconds, declared Megabytes (identity conversion)", record_value(&l_none)),
         ("promised unitless, wrote Seconds, declared unitless (identity conversion)", record_value(&l_none2)),
+        ("promised Seconds, wrote Milliseconds (same kind, other scale), declared Microseconds", record_value(&l_scale_t)),
+        ("promised Seconds, wrote Milliseconds, declared Seconds (identity conversion)", record_value(&l_scale_t_same)),
+        ("promised Kilobytes, wrote Megabytes, declared Gigabytes", record_value(&l_scale_b)),
+        ("promised Kilobytes, wrote Megabytes, declared Kilobits", record_value(&l_scale_b_bits)),
     ] {
         if !matches!(v, Val::Error(_)) {
             rep.violation("wrongly-scaled-instead-of-error", json!({"case": what, "wrote": format!("{v:?}")}));
